@@ -505,6 +505,10 @@ func c08Tree(c *harness.Check, cs parseCase, _ bool) string {
 	case "component":
 		tr["t/page.tw"] = tree.Entry{Content: `a@component("comp")b`}
 		tr["t/comp.tw"] = tree.Entry{Content: cs.Src}
+	case "symlinked-page":
+		// a template file that is a symbolic link to a file kept elsewhere is content of the directory
+		tr["shared/real.tw"] = tree.Entry{Content: cs.Src}
+		tr["t/page.tw"] = tree.Entry{Kind: tree.Symlink, Content: "../shared/real.tw"}
 	}
 	if _, err := tree.Materialise(tr); err != nil {
 		return ""
@@ -529,7 +533,7 @@ func c08Tree(c *harness.Check, cs parseCase, _ bool) string {
 
 func TestC08_Trees(t *testing.T) {
 	c := harness.New(t, "C08", "trees",
-		"a sample of sources (generated valid templates, their prefixes inside constructs, lexeme soups) written as the only page, as the layout of a page and as a component of a page in a template directory and loaded with NewTemplate: returns (template, nil) or (nil, error), never panics or hangs; prefixes inside constructs must fail the load. Non-trivial: contains an opener. Distinct by hash of role + source.")
+		"a sample of sources (generated valid templates, their prefixes inside constructs, lexeme soups) written as the only page (a regular file or a symbolic link to one), as the layout of a page and as a component of a page in a template directory and loaded with NewTemplate: returns (template, nil) or (nil, error), never panics or hangs; prefixes inside constructs must fail the load. Non-trivial: contains an opener. Distinct by hash of role + source.")
 	defer c.Finish()
 	alpha := c08Alphabet()
 	runRapid(t, c, 1500, 18000, func(rt *rapid.T) {
@@ -555,7 +559,7 @@ func TestC08_Trees(t *testing.T) {
 		if strings.IndexByte(cs.Src, 0) >= 0 {
 			return
 		}
-		cs.As = rapid.SampledFrom([]string{"page", "layout", "component"}).Draw(rt, "as")
+		cs.As = rapid.SampledFrom([]string{"page", "layout", "component", "symlinked-page"}).Draw(rt, "as")
 		nt := c08NonTrivial(cs.Src)
 		c.Case(nt, cs.As+"|"+cs.Src, "as:"+cs.As)
 		if nt {
